@@ -299,6 +299,7 @@ def main(argv):
     ap.add_argument("--jobs", type=int, default=int(os.environ.get("VERIF_JOBS", "12")))
     ap.add_argument("--replay")
     ap.add_argument("--no-evidence", action="store_true")
+    ap.add_argument("--extras-only", action="store_true", help="thorough tier minus the harnesses that are also in the quick tier (validation aid)")
     a = ap.parse_args(argv)
     if a.replay:
         return replay_cmd(a.replay, a)
@@ -311,6 +312,11 @@ def main(argv):
     hs = [h for h in P.harnesses if tier in h.tiers]
     if a.only:
         hs = [h for h in hs if any(o in h.name for o in a.only)]
+    if a.extras_only:
+        hs = [h for h in hs if "quick" not in h.tiers]
+        if not hs:
+            log(f"[{a.prop}] no thorough-only harnesses")
+            return 0
     t0 = time.time()
     pkgs = sorted({h.pkg for h in hs})
     models = sorted({m for h in hs for m in h.models})
